@@ -393,6 +393,16 @@ func (in *Interp) initExterns() {
 		}
 		return nil
 	})
+	// ghost counters: instantaneous, no scheduling point, not subject to the race monitor
+	sx("GhostAdd", func(in *Interp, _ *frame, _ *ssa.Function, a []value) value {
+		p := a[0].(Ptr)
+		nv := ts.Bin(OpAdd, (*p.p).(*Term), a[1].(*Term))
+		*p.p = nv
+		return nv
+	})
+	sx("GhostLoad", func(in *Interp, _ *frame, _ *ssa.Function, a []value) value {
+		return *a[0].(Ptr).p
+	})
 	sx("Yield", func(in *Interp, _ *frame, _ *ssa.Function, a []value) value {
 		in.sch.yield("symx.Yield")
 		return nil
